@@ -443,3 +443,22 @@ more("C11",
 more("C16",
      text="The cases are given pixel scales from 1e-2 to 1e-9 deg and seven native-frame settings (CRVAL incl. RA wrap, near and at both poles, default and non-default LONPOLE / "
           "LATPOLE), the world coordinates of every pixel being compared before and after every call at 1e-4 pixel.")
+more("C17",
+     text="A second exploration lets one call of a history be interrupted after its tiles and before its index (partial directory: 'late' and 'base'), followed by reuse / override / "
+          "`toasty view` calls; it is replayed with real Ctrl-C-style interruptions (and the natural keyword-rejected-by-the-cascade route): where no index exists nothing is claimed, "
+          "whatever index exists after any call is judged against the tiles on disk.",
+     note="Interrupted histories: 3 calls, one interruption; interruptions are injected at Builder.write_index_rel_wtml / at the first cascade write, so a crash in the middle of the "
+          "base layer is not modelled.")
+more("C20",
+     text="Files have different pixel scales (1x / 2x / 4x), so collections are or are not on one pixel grid: the real tile_fits / toasty view / FitsTiler are run on both the aligned "
+          "(exact pixel counts) and the resampling multi-WCS route, in every finer / coarser input order, and the tiling must show exactly the selected HDUs' values, each at its own "
+          "place (TLC-owned footprints); image HDUs with 3-4 axes in all 18 axis orders (celestial axes first / last / interleaved with FREQ / STOKES, degenerate and not): "
+          "descriptions(), images(), export_simple() must give the celestial plane 0 (theorem CubeSlicing).",
+     note="Resampled tilings are judged by value set (exact), area (+-40%) and centroid distance (+-2 px; inputs >= 8 px apart).")
+more("C02",
+     text="Also covered: one PyramidIO handle used for a first cascade, further leaves in new rows and a second cascade (serial and 2-process); one-sided sparse populations at depth "
+          "2-3 in which empty sub-trees precede the populated tiles in walk order; integer tiles of any non-negative value, all-zero tiles and low counts included (integer data has "
+          "no undefined value: a parent exists whenever a child exists).",
+     note="This supersedes the earlier domain restriction on integer tiles (no all-zero leaf, values >= 4^depth). Depth 3 in quick: 2 cases, serial walk order only.")
+more("C14",
+     text="Depth-0 pyramids (a single tile, leaf = root) are bound through tile_fits in TAN mode, Builder.cascade and the WTML.")
